@@ -154,7 +154,7 @@ def grid_stage(c, judge):
       continue
     sizes = [len(d._grid_values[p['name']]) for p in space]
     total = math.prod(sizes)
-    idxs = sorted(set([0, 1, total - 1, total, total + 1] + [c.rng.randrange(0, 2 * total + 3) for _ in range(6)]))
+    idxs = sorted(set(i for i in [0, 1, total - 1, total, total + 1] + [c.rng.randrange(0, 2 * total + 3) for _ in range(6)] if i >= 0))
     real = []
     for ix in idxs:
       d._current_index = ix
@@ -589,7 +589,7 @@ def service_stage(c, judge):
   if not out['suggested']:
     c.notes.append('CMA_ES not executed in this sandbox (%s); covered by c03_decode_in_space / c03_decode_never_outside only' % (out['refused'] or '')[:120])
   # GP designers
-  gp_plan = [('GAUSSIAN_PROCESS_BANDIT', 2, [2, 2])] if quick else [('GAUSSIAN_PROCESS_BANDIT', 3, [2, 3, 1]), ('GAUSSIAN_PROCESS_BANDIT', 2, [3, 2]), ('DEFAULT', 2, [2, 2]), ('DEFAULT', 2, [3, 1])]
+  gp_plan = [('GAUSSIAN_PROCESS_BANDIT', 2, [2, 2])] if quick else [('GAUSSIAN_PROCESS_BANDIT', 3, [2, 3, 1]), ('GAUSSIAN_PROCESS_BANDIT', 3, [3, 2, 5]), ('GAUSSIAN_PROCESS_BANDIT', 2, [1, 4]), ('DEFAULT', 3, [2, 2, 3]), ('DEFAULT', 2, [3, 1]), ('DEFAULT', 3, [1, 5, 2]), ('GP_UCB_PE', 2, [2, 2])]
   for algo, rnds, counts in gp_plan:
     space = cd.gen_space(c.rng, f32=True, max_params=4, max_int_width=15)
     out = run_study(c, judge, algo, space, rnds, counts)
